@@ -38,6 +38,11 @@ fn main() {
         "C08" => props::c08::run(tier, seed),
         "C09" => props::c09::run(tier, seed),
         "C10" => props::c10::run(tier, seed),
+        "C15" => props::c15::run(tier, seed),
+        "C16" => props::c16::run(tier, seed),
+        "C17" => props::c17::run(tier, seed),
+        "C18" => props::c18::run(tier, seed),
+        "C19" => props::c19::run(tier, seed),
         "C20" => props::c20::run(tier, seed),
         "replay" => {
             let path = args.get(2).unwrap_or_else(|| usage());
@@ -54,6 +59,11 @@ fn main() {
                 "C08" => props::c08::replay,
                 "C09" => props::c09::replay,
                 "C10" => props::c10::replay,
+                "C15" => props::c15::replay,
+                "C16" => props::c16::replay,
+                "C17" => props::c17::replay,
+                "C18" => props::c18::replay,
+                "C19" => props::c19::replay,
                 "C20" => props::c20::replay,
                 p => {
                     eprintln!("no replay for {p}");
